@@ -350,6 +350,38 @@ func jsCompare(c *h.Ctx, in []byte, sizes []int) (whole string) {
 
 var jsMixN int
 
+// jsReads: Read calls with the given slice lengths on the comment reader over `in` (one piece, then EOF), in the form of
+// the oracle's json.reads: hex | - | eof | err, stopping at the first eof / err.
+func jsReads(in []byte, sizes []int) string {
+	return h.Safe(func() string {
+		rd := oj.NewJsonPlusReader(bytes.NewReader(in))
+		var out []string
+		for _, k := range sizes {
+			buf := make([]byte, k)
+			n, err := rd.Read(buf)
+			switch {
+			case err == io.EOF && n == 0:
+				out = append(out, "eof")
+			case err != nil && n == 0:
+				out = append(out, "err")
+			case err != nil:
+				out = append(out, fmt.Sprintf("data-with-error:%s", h.Hex(buf[:n])))
+			case n == 0:
+				out = append(out, "-")
+			default:
+				out = append(out, h.Hex(buf[:n]))
+			}
+			if err != nil {
+				break
+			}
+		}
+		if len(out) == 0 {
+			return "_"
+		}
+		return strings.Join(out, ",")
+	})
+}
+
 // jsSegFree: every segmentation yields the same bytes and status (property, on the implementation).
 func jsSegFree(c *h.Ctx, in []byte, sizes []int, whole string) {
 	hx := h.Trunc(h.Hex(in), 3000)
@@ -360,6 +392,23 @@ func jsSegFree(c *h.Ctx, in []byte, sizes []int, whole string) {
 	if k, way := 1+jsMixN%5, jsMixN%3; true {
 		mixed := jsMixed(in, k, way)
 		c.Hold(mixed == whole, "segmentation_free", fmt.Sprintf("first %d bytes through short Reads, the rest through io.Copy / bufio WriteTo (way %d) %s", k, way, hx), h.Trunc(mixed, 400), h.Trunc(whole, 400))
+	}
+	// the consumer side against the model of the reader's buffer (Props.C17.consumer_free): slices of any length, zero included
+	if jsMixN%2 == 0 {
+		var ks []int
+		var ksS []string
+		for i, budget := 0, len(in)+3; i < 40 && budget > 0; i++ {
+			k := []int{0, 1, 1, 2, 3, 5, 8, 64, 4096}[(jsMixN/2+i*i+len(in))%9]
+			ks = append(ks, k)
+			ksS = append(ksS, fmt.Sprint(k))
+			if k > 0 {
+				budget -= k
+			} else {
+				budget--
+			}
+		}
+		arg := strings.Join(ksS, ",")
+		c.Eq("reads", "json.reads "+arg+" "+hx, h.Trunc(jsReads(in, ks), 3000), h.Trunc(c.O.Call("json.reads", arg, h.Hex(in)), 3000))
 	}
 	half := jsRead(iotest.HalfReader(bytes.NewReader(in)))
 	c.Hold(half == whole, "segmentation_free", "half "+hx, h.Trunc(half, 400), h.Trunc(whole, 400))
